@@ -245,7 +245,6 @@ def lexeme_pool(ctx):
     for lang, rx in NUM_RE.items():
         ok = sorted(x for x in lex if rx.match(x))
         pools[lang] = dict(N=ok, P=[x for x in ok if x[0] not in '+-'])
-    pools['css-keepcss2'] = {k: [x for x in v if not ('e' in x.lower() and x[0] == '0')] for k, v in pools['css'].items()}
     return pools
 
 
@@ -439,10 +438,7 @@ def render(case, pools, rnd):
             if d:
                 t = t.replace('{O}', d[0]).replace('{C}', d[1])
         else:
-            pl = pools.get(lang, {})
-            if lang == 'css' and 'KeepCSS2' in case['on']:
-                pl = pools['css-keepcss2']       # known finding: exponent-form lexemes that begin with the digit 0 under KeepCSS2
-            t = fill(t, pl, rnd)
+            t = fill(t, pools.get(lang, {}), rnd)
         parts.append(t)
     if lang == 'html':
         body = ''.join(parts)
@@ -720,8 +716,8 @@ def run(ctx):
              'model spec/OptDesign.tla (state dump and -simulate walks) under its 2^7 option sets; non-trivial = at '
              'least one option differs from its default and the output differs from the input; distinct by sha1 of '
              '(language, options, flags, exact input); (c) the repository\'s own JS test inputs under 8 Version x KeepVarNames '
-             'settings, judged on those two clauses. Generator exclusions (pinned as known findings, see known/C16.txt): CSS exponent-form numbers that begin with '
-             'the digit 0 while KeepCSS2 is on, the `xhtml` row of the documented --type table; the constructs of the five fixed findings are generated again.',
+             'settings, judged on those two clauses. Generator exclusion (pinned as known finding, see known/C16.txt): the `xhtml` row of the documented --type '
+             'table; the constructs of the six fixed findings are generated again.',
         samples=tally.samples,
     ))
     ctx.assumptions += [
